@@ -65,7 +65,15 @@ type normPart struct {
 
 // RatVal is num/den held by a big.Rat; den > 0 always. The pair is NOT
 // necessarily in lowest terms: Num()/Denom()/String() normalise on demand.
-type RatVal struct{ N, D *smt.Term }
+// RatVal: an unnormalised fraction. Buf/Ver play the same role as for BigVal: every
+// shallow struct copy of a big.Rat shares the digit arrays of the original.
+type RatVal struct {
+	N, D *smt.Term
+	Buf  *bigBuf
+	Ver  int
+}
+
+func rv(n, d *smt.Term) RatVal { return RatVal{N: n, D: d} }
 
 type Native struct {
 	Kind string
@@ -136,7 +144,7 @@ func (vm *VM) zero(t types.Type) Value {
 		return BigVal{T: smt.Int64(0)}
 	}
 	if isRatLike(vm, t) {
-		return RatVal{smt.Int64(0), smt.Int64(1)}
+		return rv(smt.Int64(0), smt.Int64(1))
 	}
 	switch u := t.Underlying().(type) {
 	case *types.Basic:
